@@ -582,7 +582,7 @@ func (t *STxn) PointScan(table string, col string, val any) (res ExecResult) {
 
 // CreateTableAPI creates a table through the catalog (what the SQL front end does for CREATE TABLE,
 // which always asks for skip list indexes) with the index kind per column given in ts.IdxKinds:
-// "" = skip list, "btree", "uniq" (unique skip list).
+// "" = skip list, "btree", "uniq" (unique skip list), "hash" (linear probe hash table).
 func (s *SUT) CreateTableAPI(ts *TableSpec) (res ExecResult) {
 	if s.Dead {
 		res.Err = errDead
@@ -602,6 +602,8 @@ func (s *SUT) CreateTableAPI(ts *TableSpec) (res ExecResult) {
 				kind = index_constants.IndexKindBtree
 			case "uniq":
 				kind = index_constants.IndexKindUniqSkipList
+			case "hash":
+				kind = index_constants.IndexKindHash
 			}
 		}
 		ct := map[ColType]types.TypeID{TInt: types.Integer, TFloat: types.Float, TVarchar: types.Varchar, TBool: types.Boolean}[c.Type]
